@@ -112,6 +112,21 @@ impl Cause {
 enum Kind {
     Link,
     SpawnL,
+    /// child 1 of the exiting supervisor is handed over to another, healthy supervisor
+    Relink,
+    /// child 1 is unlinked from the exiting supervisor
+    Unlink,
+}
+
+impl Kind {
+    fn name(self) -> &'static str {
+        match self {
+            Kind::Link => "link",
+            Kind::SpawnL => "spawnl",
+            Kind::Relink => "relink",
+            Kind::Unlink => "unlink",
+        }
+    }
 }
 
 #[derive(Clone, Copy, Debug)]
@@ -134,7 +149,7 @@ impl Case {
             self.nc,
             if self.chain { "chain" } else { "star" },
             self.tgt,
-            if self.kind == Kind::Link { "link" } else { "spawnl" },
+            self.kind.name(),
             self.j
         )
     }
@@ -151,7 +166,14 @@ impl Case {
                 "nc" => c.nc = v.parse().ok()?,
                 "shape" => c.chain = v == "chain",
                 "tgt" => c.tgt = v.parse().ok()?,
-                "kind" => c.kind = if v == "link" { Kind::Link } else { Kind::SpawnL },
+                "kind" => {
+                    c.kind = match v {
+                        "link" => Kind::Link,
+                        "relink" => Kind::Relink,
+                        "unlink" => Kind::Unlink,
+                        _ => Kind::SpawnL,
+                    }
+                }
                 "j" => c.j = v.parse().ok()?,
                 _ => {}
             }
@@ -251,7 +273,8 @@ fn run_case(c: &Case) -> Option<String> {
     let (tx_setup, rx_setup) = channel();
     let (tx_cmd, rx_cmd) = channel();
     let (tx_done, rx_done) = channel();
-    let (nc, chain, with_orphan) = (c.nc, c.chain, c.kind == Kind::Link);
+    // `link`: the extra root is the orphan to be linked; `relink`: it is the new supervisor
+    let (nc, chain, with_orphan) = (c.nc, c.chain, c.kind == Kind::Link || c.kind == Kind::Relink);
     let ta = std::thread::spawn(move || thread_a(nc, chain, with_orphan, tx_setup, rx_cmd, tx_done));
     let setup = rx_setup.recv().unwrap();
     let mut cells = setup.cells.clone();
@@ -262,7 +285,9 @@ fn run_case(c: &Case) -> Option<String> {
     // thread B: the linker
     let p_cell = cells[c.tgt.min(c.nc)].clone();
     let kind = c.kind;
-    let orphan = if kind == Kind::Link { Some(cells[nc + 1].clone()) } else { None };
+    let orphan = if kind == Kind::Link || kind == Kind::Relink { Some(cells[nc + 1].clone()) } else { None };
+    let child1 = cells.get(1).cloned();
+    let sup0 = cells[0].clone();
     let ctl_b2 = ctl_b.clone();
     // the cell of the actor being spawn_linked becomes visible here as soon as its pre_start ran
     let mid_cell: Arc<Mutex<Option<ActorCell>>> = Arc::new(Mutex::new(None));
@@ -271,6 +296,11 @@ fn run_case(c: &Case) -> Option<String> {
         thread_register(ctl_b2.clone());
         let out = match kind {
             Kind::Link => (orphan.unwrap().verif_try_link(p_cell).to_string(), None),
+            Kind::Relink => (child1.unwrap().verif_try_link(orphan.unwrap()).to_string(), None),
+            Kind::Unlink => {
+                child1.unwrap().unlink(sup0);
+                ("unit".to_string(), None)
+            }
             Kind::SpawnL => {
                 let rt = tokio::runtime::Builder::new_current_thread().enable_all().build().unwrap();
                 let sh = Arc::new(Shared { cell: Mutex::new(None), _handled: AtomicU64::new(0), _flag: AtomicBool::new(false) });
@@ -293,7 +323,7 @@ fn run_case(c: &Case) -> Option<String> {
     // bring B to the point just before its link region
     loop {
         match ctl_b.wait_parked() {
-            ThreadPhase::AtPoint("tree.link") => break,
+            ThreadPhase::AtPoint("tree.link") | ThreadPhase::AtPoint("tree.unlink") => break,
             ThreadPhase::AtPoint(_) => ctl_b.grant(),
             ThreadPhase::Done => break,
             ThreadPhase::Running => unreachable!(),
@@ -357,6 +387,11 @@ fn run_case(c: &Case) -> Option<String> {
         mid.trim().replace(' ', ";"), snapshot(&cells));
     tx_cmd.send(Cmd::Quit).unwrap();
     ta.join().unwrap();
+    // relink / unlink of a child is only compared while the supervisor's own exit is in progress (afterwards
+    // the children's exits interleave with the racer in ways the one-exit machine does not describe)
+    if (c.kind == Kind::Relink || c.kind == Kind::Unlink) && pts.iter().any(|p| p == "notify.one") {
+        return None;
+    }
     if in_range {
         Some(line)
     } else {
@@ -403,6 +438,18 @@ fn main() {
                     }
                 }
             }
+            // a child of the exiting supervisor is relinked to a healthy supervisor / unlinked, at every
+            // position — in particular while the supervisor is Stopping and has not taken its children yet
+            for (nc, chain) in [(1usize, false), (2, false), (2, true)] {
+                for kind in [Kind::Relink, Kind::Unlink] {
+                    for j in 0..=prefix {
+                        cases.push(Case { cause, nc, chain, tgt: 0, kind, j });
+                    }
+                    for _ in 0..extra {
+                        cases.push(Case { cause, nc, chain, tgt: 0, kind, j: rng.range(prefix as u64 + 1, 70) as usize });
+                    }
+                }
+            }
         }
     }
     for c in &cases {
@@ -410,6 +457,7 @@ fn main() {
             Some(line) => {
                 st.bump("cases");
                 st.bump(&format!("cause_{}", c.cause.name()));
+                st.bump(&format!("kind_{}", c.kind.name()));
                 if line.starts_with("res=true") || line.starts_with("res=ok") {
                     st.bump("link_succeeded");
                 } else {
